@@ -302,7 +302,7 @@ def check_primitives(sc, o):
     why = []
     ex = o['ex']
     groups = [g for g in sc['groups'] if g.kind != 'block']
-    special = ('raise', 'printraise', 'callraise', 'awaitcallraise', 'awaitprintraise', 'evalsyntax', 'compileindent', 'emptyraise', 'falsyraise', 'quietraise', 'callquietraise', 'exit', 'compileerr', 'badrepr', 'badreprprint')
+    special = ('raise', 'raisefinally', 'raisereraise', 'printraise', 'callraise', 'awaitcallraise', 'awaitprintraise', 'evalsyntax', 'compileindent', 'emptyraise', 'falsyraise', 'quietraise', 'callquietraise', 'exit', 'compileerr', 'badrepr', 'badreprprint')
     for idx, part in enumerate(o['parts']):
         if idx not in o['logged_stdout']:
             continue
